@@ -222,6 +222,8 @@ def address_bound(e, f):
     return any(f["name"] == t for g in e["fields"] for t, _ in g["has_one"])
 
 
+VENUE_KIND_BANKS = ("bkSt", "bkK", "bkD", "bkDh", "bkS")
+
 def subst_cells(ix, base):
     out = []
     e = A.entry(ix)
@@ -245,6 +247,10 @@ def subst_cells(ix, base):
                     out.append(meta(A.line(A.with_tweak(base, "disc:" + o)), k="sub", f=n, s="disc"))
                 other = "bk1" if f["arg"] != "Bank" else "gA"
                 out.append(meta(A.line(A.with_field(base, n, other)), k="sub", f=n, s="othertype"))
+                if f["arg"] == "Bank" and o in VENUE_KIND_BANKS:
+                    # a bank of the SAME group but of another kind (a regular bank where the instruction is meant for a
+                    # staked-collateral / venue bank): a permissionless or venue instruction must not reach it
+                    out.append(meta(A.line(A.with_field(base, n, "bk1")), k="sub", f=n, s="wrongkind"))
         elif n in A.VAULT_SUFFIX:
             fo = counterpart_vault(o, FOREIGN)
             if fo:
@@ -500,6 +506,8 @@ def must_reject(k):
         if f["w"] == "WLoader" and f["arg"] in MARGINFI_TYPES and o in ("gA", "bk1") and base[n] != o and \
                 not ((f["arg"] == "MarginfiGroup" and o == "gA") or (f["arg"] == "Bank" and o == "bk1")):
             return f"an account of another type as {n}"
+    if k.get("s") == "wrongkind":
+        return "a regular bank of the group where the instruction is meant for a staked-collateral / venue bank"
     if not consistent(ix, fields):
         return "objects of different groups / banks / accounts"
     sg = k["sg"]
